@@ -22,6 +22,13 @@ struct ValidationContext {
     /// CONST names.
     #[allow(dead_code)]
     const_names: BTreeSet<String>,
+    /// LIST names.
+    list_names: BTreeSet<String>,
+    /// List items, bare (`item`) and qualified (`list.item`).
+    list_item_names: BTreeSet<String>,
+    /// Every parameter and temporary variable declared anywhere in the story
+    /// (any of them may hold a divert target that is called like a function).
+    local_names: BTreeSet<String>,
 }
 
 impl ValidationContext {
@@ -46,6 +53,26 @@ impl ValidationContext {
         // CONSTs
         for name in story.consts.keys() {
             const_names.insert(name.clone());
+        }
+
+        let mut list_names: BTreeSet<String> = BTreeSet::new();
+        let mut list_item_names: BTreeSet<String> = BTreeSet::new();
+        for list in story.list_declarations() {
+            list_names.insert(list.name.clone());
+            for (item, _, _) in &list.items {
+                list_item_names.insert(item.clone());
+                list_item_names.insert(format!("{}.{}", list.name, item));
+            }
+        }
+
+        let mut local_names = collect_temps_from_nodes(story.root());
+        for flow in story.flows() {
+            local_names.extend(flow.parameters.iter().cloned());
+            local_names.extend(collect_temps_from_nodes(&flow.nodes));
+            for stitch in &flow.children {
+                local_names.extend(stitch.parameters.iter().cloned());
+                local_names.extend(collect_temps_from_nodes(&stitch.nodes));
+            }
         }
 
         // Collect gather/choice labels from root nodes
@@ -81,6 +108,9 @@ impl ValidationContext {
             external_functions: story.external_functions.iter().cloned().collect(),
             global_var_names,
             const_names,
+            list_names,
+            list_item_names,
+            local_names,
         }
     }
 
@@ -91,6 +121,9 @@ impl ValidationContext {
         self.validate_nodes_diverts(story.root(), "")?;
         self.validate_nodes_function_calls(story.root())?;
         self.validate_no_choice_in_conditional(story.root())?;
+        for global in story.globals() {
+            self.validate_expr_function_calls(&global.initial_value)?;
+        }
 
         // Validate each flow
         for flow in story.flows() {
